@@ -63,6 +63,7 @@ class Ref:
         self.state = "INITIALIZED"
         self.faults = 0
         self._actions(self.p.get("init", []), None)
+        self._actions(self.p.get("initial", []), "@initial")     # initial methods: after construct_model, before the warm-up is scheduled
         self._push(self.warm, 10, WARMUP)
 
     def _push(self, time, prio, tag):
